@@ -13,6 +13,7 @@ import GfaModel.Line
 import GfaModel.Levels
 import GfaModel.Partial
 import GfaModel.Groups
+import GfaModel.Captured
 /- Line protocol of the model driver: `op US arg US arg …` → one reply line. -/
 namespace Gfa
 namespace Driver
@@ -291,6 +292,10 @@ def step (d : DState) (cmd : String) (args : List (List Char)) : DState × Strin
   | "g.cc1", [s] => (d, "ok " ++ ",".intercalate (sortStrs (G.component d.g (str s))))
   | "g.induced", [u] => (d, "ok " ++ ",".intercalate (sortStrs (G.inducedSegments d.g (str u))))
   | "g.inducedE", [u] => (d, "ok " ++ ";".intercalate (sortStrs ((G.inducedEdges d.g (str u)).map G.Rec.text)))
+  | "g.captured", [p] =>
+    (d, match G.Cap.capturedPath d.g (str p) with
+        | .ok path => "ok " ++ "|".intercalate (path.map (G.Cap.El.show d.g))
+        | .error e => "gerr " ++ e.str)
   | "g.counts", [] =>
     (d, s!"ok dovetails={G.nDovetails d.g} containments={G.nContainments d.g} internals={G.nInternals d.g} dead_ends={G.nDeadEnds d.g}")
   | _, _ =>
